@@ -443,8 +443,8 @@ def raises(fn):
 def error_cases(draw):
     U = draw(gen.universes(min_dims=2, max_dims=3, max_len=3, kinds=("str", "ustr")))
     x = draw(gen.arrays(U, modes=("coded",), min_dims=2))
-    kind = draw(st.sampled_from(["unknown-item", "unknown-in-dict", "ambiguous", "slice", "not-subset", "unknown-dim", "unknown-in-list", "read-with-list", "read-with-tuple-list"]))
-    return {"universe": U, "x": x, "kind": kind, "pos": draw(st.integers(0, 3)), "write": draw(st.booleans())}
+    kind = draw(st.sampled_from(["unknown-item", "unknown-in-dict", "ambiguous", "ambiguous-in-tuple", "ambiguous-in-tuple", "slice", "not-subset", "unknown-dim", "unknown-in-list", "read-with-list", "read-with-tuple-list"]))
+    return {"universe": U, "x": x, "kind": kind, "pos": draw(st.integers(0, 3)), "write": draw(st.booleans()), "tvar": draw(st.integers(0, 5))}
 
 
 def run_error(desc):
@@ -453,7 +453,7 @@ def run_error(desc):
     letters = xd["letters"]
     l0 = letters[desc["pos"] % len(letters)]
     l1 = letters[(desc["pos"] + 1) % len(letters)]
-    if kind == "ambiguous":
+    if kind in ("ambiguous", "ambiguous-in-tuple"):
         # the same item label occurs in two dimensions of the array
         shared = "same"
         for d in U["dims"]:
@@ -470,6 +470,15 @@ def run_error(desc):
         key = {l0: [it0[0], "no-such-item"]}
     elif kind == "ambiguous":
         key = "same"
+    elif kind == "ambiguous-in-tuple":
+        # the ambiguous label inside a tuple key, next to items of one of the dimensions that hold it, of the
+        # other one, or of an unrelated dimension - before or after them
+        o0 = [i for i in it0 if i != "same"]
+        o1 = [i for i in build.udim(U, l1)["items"] if i != "same"]
+        o2 = [i for l in letters if l not in (l0, l1) for i in build.udim(U, l)["items"][:1]]
+        variants = [tuple(o0[:1]) + ("same",), ("same",) + tuple(o0[:1]), tuple(o1[:1]) + ("same",), tuple(o2) + tuple(o0[:1]) + ("same",),
+                    tuple(o0[:1]) + tuple(o2) + ("same",), tuple(o0[:2]) + ("same",)]
+        key = variants[desc.get("tvar", 0) % len(variants)]
     elif kind == "slice":
         key = slice(0, 1)
     elif kind == "unknown-dim":
@@ -487,7 +496,7 @@ def run_error(desc):
         # several items of one dimension given as a list can be written to but not read (documented)
         def fn():
             return x[key]
-    elif desc["write"] or kind == "unknown-in-list":
+    elif desc["write"] or kind == "unknown-in-list" or (kind == "ambiguous-in-tuple" and len(key) > 2):
         def fn():
             x[key] = 1.0
     else:
